@@ -12,6 +12,7 @@ from hypothesis import strategies as st
 
 import common
 import farm
+import farmcheck
 import build
 import expgen
 import exprender
@@ -30,6 +31,8 @@ RULE = ("Hypothesis draws an EXPRESS schema (codegen profile: simple/defined/enu
         "hash(schema text, canonical population).")
 NONTRIV = {"aggregate>=2", "nested-aggregate", "typed-select", "complex-instance", "string-escape", "real-exponent",
            "forward-ref", "star"}
+
+SCHEMA_CFG = {"p_redecl": 45, "attr_weights": {"simple": 30, "defined": 10, "enum": 8, "select": 17, "entity": 15, "agg": 20}}
 
 _TS = re.compile(r"(FILE_NAME\s*\(\s*'(?:[^']|'')*'\s*,\s*)'[^']*'")
 
@@ -103,124 +106,88 @@ def signature(probs):
     return p[:80]
 
 
-def _worker(arg):
-    lib, seed, n_examples, cfg = arg
-    ev = common.Evidence(PROP, "exploration", "quick", seed, RULE)
-    findings = common.Findings()
-    wd = os.path.join(lib["dir"], "w")
-    os.makedirs(wd, exist_ok=True)
-    schema_hash = common.chash(open(lib["exp"]).read())
-    counter = [0]
-    stags = expgen.tags(lib["schema"])
+PROBES = 6   # first cases per schema keep the shapes of open findings, to show they still reproduce
 
-    strat = st.tuples(p21gen.populations(lib["schema"], cfg), st.integers(0, 10**6))
 
-    open_sigs = set(e["sig"] for e in findings.open_for(PROP))
-    PROBES = 6   # first cases per schema keep the shapes of open findings, to show they still reproduce
+def pop_canon(ctx, pop):
+    return common.chash([ctx.schema_hash, [[i["id"], i["complex"], [[p["ent"], [p21gen.canon_value(v) for v in p["vals"]]] for p in i["parts"]]] for i in pop["instances"]], pop["header"]])
 
-    def test(x):
-        pop, layout = x
-        counter[0] += 1
-        excl = pop.pop("excluded", {})
-        for k, v in excl.items():
-            ev.exclude(k, v)
-        if not pop["instances"]:
-            ev.bump("empty-population")
-        feats = set(p21render.ALL_LAYOUT)
-        if "layout:comment-inner" in open_sigs and counter[0] > PROBES:
-            feats.discard("comment-inner")
-        used = set()
-        text = p21render.render(pop, layout, feats=feats, used=used)
-        if "suppressed:comment-inner" in used:
-            ev.exclude("comment after the first '(' of an instance (finding F20)")
-        pf = p21gen.features(pop)
-        canon = common.chash([schema_hash, [[i["id"], i["complex"], [[p["ent"], [p21gen.canon_value(v) for v in p["vals"]]] for p in i["parts"]]] for i in pop["instances"]], pop["header"]])
-        nt = bool(pf & NONTRIV)
-        sample = None
-        if nt and len(ev.samples) < 2:
-            sample = {"schema": open(lib["exp"]).read()[:1500], "file": text[:1500]}
-        ev.case(canon, nt, classes=["pop:" + f for f in pf] + ["layout:" + u for u in used if not u.startswith("suppressed")] + ([] if layout else ["layout:canonical"]), sample=sample)
-        probs = oracle(lib, pop, text, wd, "c%d" % counter[0])
-        if probs:
-            # delta classification against open findings: remove exactly the shape the finding names
-            if "comment-inner" in used and "layout:comment-inner" in open_sigs:
-                t2 = p21render.render(pop, layout, feats=feats - {"comment-inner"})
-                if not oracle(lib, pop, t2, wd, "d%d" % counter[0]):
-                    ev.known_hit(findings.match(PROP, "layout:comment-inner")["id"])
-                    return
-            sig = signature(probs)
-            k = findings.match(PROP, sig)
-            if k:
-                ev.known_hit(k["id"])
+
+def layout_feats(ctx):
+    feats = set(p21render.ALL_LAYOUT)
+    if "layout:comment-inner" in ctx.open_sigs and ctx.n > PROBES:
+        feats.discard("comment-inner")
+    return feats
+
+
+def note_layout(ctx, used):
+    if "suppressed:comment-inner" in used:
+        ctx.ev.exclude("comment after the entity keyword of an instance (finding F20)")
+
+
+def case(ctx, x):
+    pop, layout = x
+    tag = ctx.tag()
+    ev = ctx.ev
+    for k, v in pop.pop("excluded", {}).items():
+        ev.exclude(k, v)
+    if pop.pop("probe", False):
+        ev.bump("probe-population")
+    if not pop["instances"]:
+        ev.bump("empty-population")
+    feats = layout_feats(ctx)
+    used = set()
+    text = p21render.render(pop, layout, feats=feats, used=used)
+    note_layout(ctx, used)
+    pf = p21gen.features(pop)
+    nt = bool(pf & NONTRIV)
+    sample = None
+    if nt and len(ev.samples) < 2:
+        sample = {"schema": ctx.schema_text[:1500], "file": text[:1500]}
+    ev.case(pop_canon(ctx, pop), nt, classes=["pop:" + f for f in pf] + ["layout:" + u for u in used if not u.startswith("suppressed")] + ([] if layout else ["layout:canonical"]), sample=sample)
+    probs = oracle(ctx.lib, pop, text, ctx.wd, tag)
+    if probs:
+        # delta classification against open findings: remove exactly the shape the finding names
+        if "comment-inner" in used and "layout:comment-inner" in ctx.open_sigs:
+            t2 = p21render.render(pop, layout, feats=feats - {"comment-inner"})
+            if not oracle(ctx.lib, pop, t2, ctx.wd, tag + "d"):
+                ctx.known("layout:comment-inner")
                 return
-            raise Found({"what": "; ".join(probs[:4]), "sig": sig, "pop": pop, "layout": layout, "text": text,
-                         "schema_text": open(lib["exp"]).read(), "schema": lib["schema"]})
+        if "pop:number-int-in-aggregate" in ctx.open_sigs and p21gen.number_int_in_agg(pop):
+            pop2 = p21gen.without_number_int_in_agg(pop)
+            if not oracle(ctx.lib, pop2, p21render.render(pop2, layout, feats=feats - {"comment-inner"}), ctx.wd, tag + "e"):
+                ctx.known("pop:number-int-in-aggregate")
+                return
+        sig = signature(probs)
+        if ctx.known(sig):
+            return
+        raise Found({"what": "; ".join(probs[:4]), "sig": sig, "pop": pop, "layout": layout, "text": text})
 
-    found = farm.explore(test, strat, n_examples, seed)
-    for t in stags:
-        ev.bump("schema:" + t)
-    ev.bump("schemas")
-    shutil.rmtree(wd, ignore_errors=True)
-    return {"ev": ev.partial(), "found": found, "idx": lib["idx"]}
 
-
-def confirm(lib, payload, wd):
-    for k in range(3):
-        if not oracle(lib, payload["pop"], payload["text"], wd, "confirm%d" % k):
-            return False
-    return True
+def probe_cfg(findings):
+    """Population shapes that are excluded by construction because of an open finding are still produced in the
+    ~5% 'probe' populations, so that every run shows whether the finding still reproduces."""
+    sigs = set(e["sig"] for e in findings.open_for(PROP))
+    cfg = {}
+    if "pop:number-int-in-aggregate" in sigs:
+        cfg["allow_number_int_in_agg"] = True
+    return cfg
 
 
 def main(tier, seed):
-    n_schemas, n_pop = (10, 120) if tier == "quick" else (80, 400)
+    n_schemas, n_pop = (12, 200) if tier == "quick" else (80, 400)
     cfg_pop = {"max_inst": 10} if tier == "quick" else {"max_inst": 30, "max_agg_len": 40}
-    ev = common.Evidence(PROP, "exploration", tier, seed, RULE)
-    findings = common.Findings()
-    root = common.scratch("c01")
-    schemas = farm.draw_schemas(common.sub_seed(seed, "c01-schemas"), n_schemas, {})
-    libs = farm.build_all(schemas, root)
-    good = [l for l in libs if l["ok"]]
-    for l in libs:
-        if not l["ok"]:
-            ev.inconclusive.append("schema %d did not build (%s) - reported by C02, skipped here" % (l["idx"], l["stage"]))
-    results = common.pmap(common.guarded(_worker), [(l, common.sub_seed(seed, "c01-pop", l["idx"]), n_pop, cfg_pop) for l in good])
-    rc = 0
-    for l, (status, res) in zip(good, results):
-        if status != "ok":
-            print("machinery error in worker for schema %d:\n%s" % (l["idx"], res))
-            rc = 3
-            continue
-        ev.merge(res["ev"])
-        f = res["found"]
-        if f:
-            wd = os.path.join(l["dir"], "confirm")
-            os.makedirs(wd, exist_ok=True)
-            if confirm(l, f, wd):
-                d = common.save_replay(PROP, {"schema.exp": f["schema_text"], "input.p21": f["text"],
-                                              "pop.json": json.dumps(f["pop"]), "schema.json": json.dumps(f["schema"])},
-                                       {"property": PROP, "what": f["what"], "sig": f["sig"], "layout": f["layout"], "seed": seed})
-                ev.violations += 1
-                common.print_violation(PROP, d, f["what"])
-                rc = max(rc, 1)
-            else:
-                ev.inconclusive.append("failure did not reproduce 3x: " + f["what"][:200])
-    for fid, n in ev.known.items():
-        e = [x for x in findings.entries if x.get("id") == fid]
-        common.print_known(PROP, e[0]["what"] if e else fid)
-    if ev.evaluations < 50 and rc == 0:
-        print("machinery failure: only %d cases executed" % ev.evaluations)
-        rc = 3
-    ev.write()
-    shutil.rmtree(root, ignore_errors=True)
-    print("C01 %s: %d cases, %d distinct non-trivial, %d violations, %.0fs" % (tier, ev.evaluations, len(ev.nontrivial), ev.violations, __import__("time").time() - ev.t0))
-    return rc
+    return farmcheck.run(
+        PROP, "exploration", RULE, tier, seed, n_schemas, n_pop,
+        make_strategy=lambda lib: st.tuples(p21gen.populations(lib["schema"], cfg_pop, probe_cfg(common.Findings())), st.integers(0, 10**6)),
+        case_fn=case,
+        confirm_fn=lambda lib, f, wd: bool(oracle(lib, f["pop"], f["text"], wd, "confirm")),
+        replay_files=lambda f: {"input.p21": f["text"], "pop.json": json.dumps(f["pop"])},
+        schema_cfg=SCHEMA_CFG)
 
 
 def replay(path):
-    build.ensure("plain")
-    root = common.scratch("c01-replay")
-    sd = json.load(open(os.path.join(path, "schema.json")))
-    lib = farm._build_one((0, sd, root, "plain", ("p21read", "p21drv"), open(os.path.join(path, "schema.exp")).read()))
+    lib, root = farmcheck.replay_lib(path, name="c01-replay")
     if not lib["ok"]:
         print("schema of the replay no longer builds: " + lib["log"][-500:])
         common.print_violation(PROP, path, "schema does not build")
